@@ -175,10 +175,10 @@ func c05(r *report.Run) {
 	}
 	tot := &c05Totals{}
 	modes := []lib.Mode{{Env: "struct", Opt: true}, {Env: "struct", Opt: false}, {Env: "map", Opt: true}, {Env: "noenv", Opt: true}}
-	slices := []*slice{sliceControl(), sliceScalar(), sliceAccess(), sliceLoops(), sliceAlloc(), sliceOptim(), sliceAliases(), sliceElvis(), sliceCalls(), sliceKinds()}
+	slices := []*slice{sliceControl(), sliceScalar(), sliceAccess(), sliceLoops(), sliceAlloc(), sliceOptim(), sliceAliases(), sliceElvis(), sliceCalls(), sliceKinds(), sliceNilIn()}
 	budget := map[string]map[string]int{
-		"quick":    {"control": 5, "scalar": 4, "access": 5, "loops": 6, "alloc": 6, "optim": 4, "aliases": 5, "elvis": 6, "calls": 6, "kinds": 5},
-		"thorough": {"control": 6, "scalar": 5, "access": 6, "loops": 7, "alloc": 7, "optim": 5, "aliases": 6, "elvis": 7, "calls": 7, "kinds": 6},
+		"quick":    {"control": 5, "scalar": 4, "access": 5, "loops": 6, "alloc": 6, "optim": 4, "aliases": 5, "elvis": 6, "calls": 6, "kinds": 5, "nilin": 6},
+		"thorough": {"control": 6, "scalar": 5, "access": 6, "loops": 7, "alloc": 7, "optim": 5, "aliases": 6, "elvis": 7, "calls": 7, "kinds": 6, "nilin": 7},
 	}
 	for _, sl := range slices {
 		sl.maxN = map[string]int{r.Tier: budget[r.Tier][sl.name]}
